@@ -230,6 +230,77 @@ def downgradingPolicyL (levels : List Nat) : Policy :=
 def downgradingPolicy (levels : Nat) : Policy :=
   { attempt := fun n => decide (n ≤ levels), rtype := downgradingRType }
 
+/-! ### the error values the retry policies are handed (errors.go) and the built-in policies' `GetRetryType` on them -/
+
+/-- `RequestErrWriteTimeout.WriteType` (a string on the wire; `other` = any string not listed) -/
+inductive WriteType where
+  | simple | batch | counter | unloggedBatch | batchLog | cas | view | cdc | other
+deriving DecidableEq, Repr
+
+/-- an `error` as `GetRetryType(err)` sees it through its type switch -/
+inductive ReqErr where
+  | unavailable (required alive : Nat)                       -- *RequestErrUnavailable
+  | writeTimeout (wt : WriteType) (received blockFor : Nat)  -- *RequestErrWriteTimeout
+  | readTimeout (received blockFor : Nat) (dataPresent : Bool) -- *RequestErrReadTimeout
+  | other                                                    -- every other error value (also a WRAPPED timeout error:
+                                                             -- the switch is on the dynamic type, not errors.As)
+deriving DecidableEq, Repr
+
+/-- `DowngradingConsistencyRetryPolicy.GetRetryType` (policies.go), branch by branch -/
+def downgradingGetRetryType : ReqErr → RT
+  | .unavailable _ alive => if alive > 0 then .retry else .rethrow
+  | .writeTimeout wt received _ =>
+      if wt = .simple ∨ wt = .batch ∨ wt = .counter then (if received > 0 then .ignore else .rethrow)
+      else if wt = .unloggedBatch then .retry
+      else .rethrow
+  | .readTimeout _ _ _ => .retry
+  | .other => .nextHost
+
+/-- `SimpleRetryPolicy.GetRetryType` / `ExponentialBackoffRetryPolicy.GetRetryType` -/
+def simpleGetRetryType : ReqErr → RT := fun _ => .nextHost
+
+/-- the abstract error kind the executor model (`doLoop`, `Policy.rtype`) files an error value under -/
+def kindOf : ReqErr → Nat
+  | .unavailable _ alive => if alive > 0 then kUnavailableAlive else kUnavailableNone
+  | .writeTimeout wt received _ =>
+      if wt = .simple ∨ wt = .batch ∨ wt = .counter then (if received > 0 then kWriteTOSimpleRecv else kWriteTOSimpleNone)
+      else if wt = .unloggedBatch then kWriteTOUnlogged
+      else kWriteTOOther
+  | .readTimeout _ _ _ => kReadTO
+  | .other => 9
+
+/-- `Attempt(q)` of the three built-in policies as a function of `q.Attempts()`: the answer and the consistency
+    it sets on the statement (`none`: untouched) -/
+def simpleAttempt (numRetries attempts : Nat) : Bool × Option Nat := (decide (attempts ≤ numRetries), none)
+
+def downgradingAttempt (levels : List Nat) (attempts : Nat) : Bool × Option Nat :=
+  if attempts > levels.length then (false, none)
+  else if attempts > 0 then (true, levels[attempts - 1]?)
+  else (true, none)
+
+namespace Spec
+/-- The DOCUMENTED decisions of DowngradingConsistencyRetryPolicy (the doc comment above the type in policies.go;
+    `none` = the text does not say):
+    * "On a read timeout: the operation is retried with the next provided consistency level."
+    * "On a write timeout: if the operation is an UNLOGGED_BATCH and at least one replica acknowledged the write,
+       the operation is retried with the next consistency level. Furthermore, for other write types, if at least
+       one replica acknowledged the write, the timeout is ignored."  — the "other write types" are read as the
+       ordinary writes SIMPLE / BATCH / COUNTER (as in the drivers the text comes from); for BATCH_LOG, CAS, VIEW,
+       CDC the text is taken to say nothing; a write timeout that no replica acknowledged is neither retried nor
+       ignored: it goes back to the caller.
+    * "On an unavailable exception: if at least one replica is alive, the operation is retried with the next
+       provided consistency level." — otherwise it goes back to the caller. -/
+def downgradingDoc : ReqErr → Option RT
+  | .readTimeout _ _ _ => some .retry
+  | .writeTimeout .unloggedBatch received _ => some (if received > 0 then .retry else .rethrow)
+  | .writeTimeout .simple received _ => some (if received > 0 then .ignore else .rethrow)
+  | .writeTimeout .batch received _ => some (if received > 0 then .ignore else .rethrow)
+  | .writeTimeout .counter received _ => some (if received > 0 then .ignore else .rethrow)
+  | .writeTimeout _ _ _ => none
+  | .unavailable _ alive => some (if alive > 0 then .retry else .rethrow)
+  | .other => none
+end Spec
+
 /-! ### which policy / observer a statement carries (session.go: `Session.Query`, `Session.NewBatch`, the
     deprecated package-level `NewBatch`) -/
 
